@@ -511,6 +511,12 @@ func (p *path) decide(conds []*smt.Term, vals []int64) int {
 				feasible = append(feasible, i)
 			case c.IsFalse():
 			default:
+				if ct, _, ok := p.cheapSides(c); ok {
+					if ct {
+						feasible = append(feasible, i)
+					}
+					continue
+				}
 				r := p.check(c, false)
 				if r == smt.Unknown {
 					p.note("unknown feasibility at " + p.site())
@@ -519,6 +525,9 @@ func (p *path) decide(conds []*smt.Term, vals []int64) int {
 					feasible = append(feasible, i)
 				}
 			}
+		}
+		if len(feasible) > 1 || (len(feasible) == 1 && feasible[0] != 0) {
+			p.mdl = nil
 		}
 	}
 	if len(feasible) == 0 {
@@ -831,9 +840,21 @@ func callVerifAPI(fr *frame, name string, args []value) (res value, ok bool) {
 		p.smtNames[sn] = name
 		t := p.ctx.Var(sn, 64)
 		p.inputs = append(p.inputs, inputDecl{name, t})
+		// membership as a union of ranges (signed order), compact for contiguous value sets
+		sorted := append([]uint64(nil), vals...)
+		sort.Slice(sorted, func(i, j int) bool { return int64(sorted[i]) < int64(sorted[j]) })
 		any := p.ctx.Bool(false)
-		for _, v := range vals {
-			any = p.ctx.BOr(any, p.ctx.Eq(t, p.ctx.BV(64, v)))
+		for i := 0; i < len(sorted); {
+			j := i
+			for j+1 < len(sorted) && sorted[j+1] == sorted[j]+1 {
+				j++
+			}
+			if i == j {
+				any = p.ctx.BOr(any, p.ctx.Eq(t, p.ctx.BV(64, sorted[i])))
+			} else {
+				any = p.ctx.BOr(any, p.ctx.BAnd(p.ctx.Sle(p.ctx.BV(64, sorted[i]), t), p.ctx.Sle(t, p.ctx.BV(64, sorted[j]))))
+			}
+			i = j + 1
 		}
 		p.assertPC(any)
 		if p.doms == nil {
